@@ -128,6 +128,72 @@ for seed in range(6):
         for l in labs:
             check(S.connected(seg == l, 8), f'{tp} parent not 8-connected')
 
+# ---- raster-ordered components -------------------------------------------------
+m = np.array([[0, 0, 1, 0, 0],
+              [1, 0, 0, 0, 1],
+              [1, 1, 0, 1, 1]], bool)
+check([len(c) for c in S.components(m, 4)] == [1, 3, 3], 'components(): raster order / sizes (4)')
+check([c[0] for c in S.components(m, 4)] == [(0, 2), (1, 0), (1, 4)], 'components(): first pixels')
+m2 = m.copy()
+m2[1, 1] = m2[2, 0] = False
+m2[2, 1] = True
+check([len(c) for c in S.components(m2, 8)] == [1, 2, 3] and [len(c) for c in S.components(m2, 4)] == [1, 1, 3, 1],
+      'components(): diagonal neighbours')
+
+# ---- spike parents: at EVERY level where >= 2 components survive the npixels = 5 filter the spike (if the level is
+# below its height) is a separate sub-npixels component at the stated place in raster order; at the lowest such level
+# it is present (so the marker numbers taken from that level have the hole).  Smooth parents never show such a pattern.
+want = {'first': ('sMM', 'sMMM'), 'last': ('MMs',), 'middle': ('MsM',)}
+for seed in range(8):
+    for tp in S.TYPES:
+        for frame, k in (((tp,), 0), (('B2', tp), 1), ((tp, 'S', 'B3t'), 0)):
+            data, seg, labs = S.build(frame, 'consec', 'pos', seed)
+            pm = seg == labs[k]
+            if tp in S.SPIKE_TYPES:
+                check(S.connected(pm, 4), f'{tp} parent not 4-connected')
+            vals = data[pm]
+            for conn in (8, 4):
+                pats = []
+                for lev in np.linspace(vals.min(), vals.max(), 160)[1:-1]:
+                    pat = S.marker_pattern(data, pm, lev, 5, conn)
+                    if pat.count('M') >= 2:
+                        pats.append(pat)
+                if tp in S.SPIKE:
+                    ok = want[S.SPIKE[tp][3]]
+                    check(bool(pats) and pats[0] in ok, f'{tp} seed {seed} frame {frame}: first separating level shows {pats[:1]}')
+                    if tp != 'H3a':     # (H3a: the third peak's tip is a legitimate small component at some levels)
+                        check(all(q in ok or 's' not in q for q in pats), f'{tp} seed {seed}: unexpected pattern {sorted(set(pats))}')
+                elif tp in S.NOISE_TYPES:
+                    check(any('s' in q for q in pats), f'{tp} seed {seed}: no sub-npixels component at any separating level')
+                elif tp in S.GAUSS and tp not in ('B3t', 'B3r', 'B3f'):
+                    check(all('s' not in q for q in pats), f'smooth parent {tp} has a sub-npixels component: {sorted(set(pats))}')
+
+
+
+# the same at the corners of the generic ranges (sub-pixel offset +-0.3, amplitudes / spike height x0.97 / x1.03)
+class CornerRng:
+    def __init__(self, sx, sy, signs):
+        self.q = [None] + list(signs)          # one sign per scalar draw, in call order
+        self.sx, self.sy = sx, sy
+
+    def uniform(self, lo, hi, size=None):
+        if size == 2:
+            return np.array([lo if self.sx < 0 else hi, lo if self.sy < 0 else hi])
+        self.q.pop(0)
+        return lo if self.q[0] < 0 else hi
+
+
+for tp in S.SPIKE:
+    nb = len(S.GAUSS[S.SPIKE[tp][0]] if S.SPIKE[tp][0] in S.GAUSS else S.GAUSS_EXTRA[S.SPIKE[tp][0]])
+    for sx, sy, sa, ss in itertools.product((-1, 1), repeat=4):
+        rng = CornerRng(sx, sy, [sa] * nb + [ss])
+        img, pm = S.tile(tp, rng)
+        check(S.connected(pm, 4), f'{tp} corner {sx, sy, sa, ss}: parent not 4-connected')
+        for conn in (8, 4):
+            pats = [q for q in (S.marker_pattern(img, pm, lev, 5, conn) for lev in np.linspace(img[pm].min(), img[pm].max(), 50)[1:-1])
+                    if q.count('M') >= 2]
+            check(bool(pats) and pats[0] in want[S.SPIKE[tp][3]], f'{tp} corner {sx, sy, sa, ss} conn {conn}: first separating level shows {pats[:1]}')
+
 if fails:
     print('FAILED:', *fails, sep='\n  ')
     sys.exit(1)
